@@ -153,7 +153,7 @@ func actDeriveChild(e *Env, a J) J {
 	if c.EncrKInfo == nil {
 		return J{"infra": "derive_child: encr"}
 	}
-	err := c.GenerateKeyForChildSA(o.key, nilIfEmpty(gox(a, "nonce")))
+	err := c.GenerateKeyForChildSA(o.key, []byte(gox(a, "nonce")))
 	obs := errObs(err)
 	if err == nil {
 		obs["ei"] = octOf(c.InitiatorToResponderEncryptionKey)
@@ -237,6 +237,15 @@ func registerSA(e *Env, name string, k *security.IKESAKey, suite J) {
 func actIkeDerive(e *Env, a J) J {
 	suite := gj(a, "suite")
 	k := new(security.IKESAKey)
+	if rk := gs(a, "rekey"); rk != "" {
+		// a second derivation on the SAME key object (IKE_SA_INIT repeated after COOKIE / INVALID_KE_PAYLOAD): the object
+		// the earlier step registered, with everything the earlier derivation left in it
+		if o, _ := e.objs["sa:"+rk].(*saObj); o != nil {
+			k = o.key
+		} else {
+			return J{"infra": "ike_derive: rekey of unknown SA " + rk}
+		}
+	}
 	infosFromNames(k, suite, gi(a, "grp"))
 	if k.EncrInfo == nil || k.IntegInfo == nil || k.PrfInfo == nil || k.DhInfo == nil {
 		return J{"infra": "ike_derive: algorithm not registered"}
@@ -424,8 +433,12 @@ func actCipherEncrypt(e *Env, a J) J {
 				seen = map[string]bool{}
 				e.objs["ivs"] = seen
 			}
-			obs["ivrepeat"] = seen[string(iv)]
-			seen[string(iv)] = true
+			// freshness is judged against the system source only: a replaced source that delivers the same octets again
+			// legitimately yields the same IV again (which octets of the stream become the IV is the library's business)
+			obs["ivrepeat"] = r == nil && seen[string(iv)]
+			if r == nil {
+				seen[string(iv)] = true
+			}
 			// echo oracle for the trace specification: textbook CBC decryption under the object's key
 			if key, ok := e.objs["cipherkey:"+gs(a, "obj")].(Oct); ok && (len(ct)-16)%16 == 0 {
 				if full, derr := cbcDecrypt(key, iv, ct[16:]); derr == nil {
@@ -752,6 +765,24 @@ func actProposalRoundtrip(e *Env, a J) J {
 		trs = projTransforms(5, back.ExtendedSequenceNumbers, trs)
 		obs["back"] = trs
 		obs["backproto"] = int(back.ProtocolID)
+		// the caller adds one more choice to every list of the advertised proposal (a second group, a second key size ...):
+		// what the other lists advertise stays what it was
+		n1, n2, n3, n4, n5 := len(back.EncryptionAlgorithm), len(back.PseudorandomFunction), len(back.IntegrityAlgorithm), len(back.DiffieHellmanGroup), len(back.ExtendedSequenceNumbers)
+		extra := func(tt uint8) *message.Transform {
+			return &message.Transform{TransformType: tt, TransformID: 60000 + uint16(tt)}
+		}
+		back.DiffieHellmanGroup = append(back.DiffieHellmanGroup, extra(4))
+		back.EncryptionAlgorithm = append(back.EncryptionAlgorithm, extra(1))
+		back.IntegrityAlgorithm = append(back.IntegrityAlgorithm, extra(3))
+		back.PseudorandomFunction = append(back.PseudorandomFunction, extra(2))
+		back.ExtendedSequenceNumbers = append(back.ExtendedSequenceNumbers, extra(5))
+		after := []any{}
+		after = projTransforms(1, back.EncryptionAlgorithm[:n1], after)
+		after = projTransforms(2, back.PseudorandomFunction[:n2], after)
+		after = projTransforms(3, back.IntegrityAlgorithm[:n3], after)
+		after = projTransforms(4, back.DiffieHellmanGroup[:n4], after)
+		after = projTransforms(5, back.ExtendedSequenceNumbers[:n5], after)
+		obs["appendsafe"] = eqJ(after, trs) && eqJ(trs, after)
 	}
 	return obs
 }
